@@ -38,6 +38,14 @@ def _sig(rec):
     return "C05 accepted nts=%s%s" % (d["nts"], "".join("+" + k for k in dev))
 
 
+def _validate_in(ctx, d, module, cfg, path):
+    """ctx.validate in the spec directory d (for validations that run side by side)"""
+    r = ctx.tlc(module, cfg, workers=2, timeout=900, files={"trace.ndjson": path}, allow_violation=True, tag="trace:" + cfg, specdir=d)
+    if r["violated"]:
+        return False, ctx.trace_state_l(r["out"]), r["violated"], r["out"]
+    return True, None, None, r["out"]
+
+
 def _judge_dgrams(ctx, recs, cases, who):
     """monitor: every accepted datagram must satisfy AcceptX(d, il, TRUE); one TLC run reports one
     record - the records of that signature are set aside and the rest is judged again.
@@ -142,8 +150,9 @@ def run_assoc(ctx):
     NtpAcceptTrace (got = ok => AcceptX(d, il, TRUE)), per call NtpAcceptAssocTrace (ret = ok => some
     datagram delivered during the call satisfies AcceptX(d, il, TRUE)).  Returns (n_cases, n_records)."""
     q = ctx.quick
-    r = ctx.tlc("NtpAcceptAssocMC", "NtpAcceptAssoc_exh.cfg", workers=4, timeout=300)
+    # (the generator configurations check the same invariants; 3 arrivals in the thorough tier)
     g = ctx.tlc("NtpAcceptAssocMC", "NtpAcceptAssoc_gen.cfg" if q else "NtpAcceptAssoc_gen3.cfg", workers=1, timeout=300, tag="assocgen")
+    r = g if q else ctx.tlc("NtpAcceptAssocMC", "NtpAcceptAssoc_exh.cfg", workers=4, timeout=300)
     cases = ctx.emitted(g["out"])
     rng = random.Random(ctx.seed + 5)
     rng.shuffle(cases)
@@ -166,6 +175,9 @@ def run_assoc(ctx):
                      "genuine response), %d with a drained association answered under the previous keys; per (association, exchange): %s" %
                      (r["distinct"], len(cases), ", ".join(KE_FAIL), 2 if q else 3, nfail, nplain, nold,
                       {"%s/%s" % k: len(v) for k, v in sorted(combos.items())}))
+    # every poll on the IP client and on the SCION client (same-AS empty path; key exchange over TLS)
+    cases = [dict(c, tr=tr) for c in cases for tr in ("ip", "scion")]
+    rng.shuffle(cases)
     cp = ctx.path("cases_assoc.ndjson")
     vlib.write_ndjson(cp, cases)
     tp, out = ctx.godriver("c05nts", "^TestC05Assoc$", cases=cp, out_name="trace_assoc.ndjson", timeout=900)
@@ -175,20 +187,30 @@ def run_assoc(ctx):
     skips = [x for x in allrecs if x["ev"] == "skip"]
     per = {}
     for x in calls:
-        k = "%s/%s" % (x["assoc"], x["ke"])
+        k = "%s %s/%s" % (x["tr"][:-4], x["assoc"], x["ke"] if x["ke"] in ("ok", "none") else "failed")
         per.setdefault(k, {}).setdefault(x["ret"], 0)
         per[k][x["ret"]] += 1
     ctx.log("association driver: %d cases, %d calls, %d datagrams judged, %d cases not set up; calls per association/exchange: %s" %
             (len(cases), len(calls), len(dg), len(skips), per))
-    nviol = _judge_dgrams(ctx, dg, cases, "NTS client (association driver)")
     # per call: an offset only if an acceptable datagram was delivered during the call
+    # (the first validation of the call records runs beside the one of the datagram records)
+    from concurrent.futures import ThreadPoolExecutor
     left = list(calls)
+    pp = ctx.path("assoc_calls_left.ndjson")
+    vlib.write_ndjson(pp, left)
+    ctx.specdir()
+    cdir = ctx.private_specdir()
+    with ThreadPoolExecutor(max_workers=1) as ex:
+        f1 = ex.submit(_validate_in, ctx, cdir, "NtpAcceptAssocTrace", "NtpAcceptAssocTrace_mon.cfg", pp)
+        nviol = _judge_dgrams(ctx, dg, cases, "NTS client (association driver)")
+        first = f1.result()
     for _ in range(8):
         if not left:
             break
-        pp = ctx.path("assoc_calls.ndjson")
-        vlib.write_ndjson(pp, left)
-        ok, l, inv, tout = ctx.validate("NtpAcceptAssocTrace", "NtpAcceptAssocTrace_mon.cfg", pp)
+        if first is None:
+            vlib.write_ndjson(pp, left)
+            first = _validate_in(ctx, cdir, "NtpAcceptAssocTrace", "NtpAcceptAssocTrace_mon.cfg", pp)
+        (ok, l, inv, tout), first = first, None
         if ok:
             break
         if not l:
@@ -204,22 +226,27 @@ def run_assoc(ctx):
         left = [x for x in left if not (x["ret"] == "ok" and _call_sig(x) == sig)]
     # vacuity on the driver side (only when nothing was found: a client that is broken in another way
     # may well be unable to reach an association state)
-    seen = {(x["assoc"], x["ke"]) for x in calls}
+    seen = {(x["tr"], x["assoc"], x["ke"]) for x in calls}
     acc = [x for x in dg if x["got"] == "ok" and x["d"]["nts"] == "ok" and x["phase"] in ("poll", "rest")]
-    if nviol == 0 and (len(skips) > len(cases) // 10 or not want_combos <= seen or
-                       not {"fresh", "drained", "cached"} <= {x["assoc"] for x in acc} or
-                       not any(x["how"] == "wrongKey:old" for x in dg) or
-                       not any(x["d"]["nts"] == "absent" and x["phase"] == "poll" for x in dg)):
+    trs = ("ip-nts", "scion-nts")
+    if nviol == 0 and (len(skips) > len(cases) // 10 or not {(t,) + c for t in trs for c in want_combos} <= seen or
+                       not {(t, a) for t in trs for a in ("fresh", "drained", "cached")} <= {(x["tr"], x["assoc"]) for x in acc} or
+                       not set(trs) <= {x["tr"] for x in dg if x["how"] == "wrongKey:old"} or
+                       not set(trs) <= {x["tr"] for x in dg if x["d"]["nts"] == "absent" and x["phase"] == "poll"}):
         raise vlib.Inconclusive("association driver coverage incomplete: %d cases not set up (%s), calls %s" %
                                 (len(skips), sorted({x["why"] for x in skips})[:3], per))
     if nviol == 0:
         dp, pp = ctx.path("assoc_dgrams.ndjson"), ctx.path("assoc_calls.ndjson")
         vlib.write_ndjson(dp, dg)
         vlib.write_ndjson(pp, calls)
-        ok, l, inv, tout = ctx.validate("NtpAcceptTrace", "NtpAcceptTrace_strict.cfg", dp)
+        # (the two strict validations side by side, each in a private copy of the spec directory)
+        with ThreadPoolExecutor(max_workers=2) as ex:
+            f2 = ex.submit(_validate_in, ctx, ctx.private_specdir(), "NtpAcceptAssocTrace", "NtpAcceptAssocTrace_strict.cfg", pp)
+            ok, l, inv, tout = _validate_in(ctx, ctx.private_specdir(), "NtpAcceptTrace", "NtpAcceptTrace_strict.cfg", dp)
+            res2 = f2.result()
         if not ok:
             ctx.drift.append("NTS client, association driver (%s): reaction differs from NtpAccept.tla, e.g. %s" % (inv, dg[l - 1] if l else "?"))
-        ok, l, inv, tout = ctx.validate("NtpAcceptAssocTrace", "NtpAcceptAssocTrace_strict.cfg", pp)
+        ok, l, inv, tout = res2
         if not ok:
             bad = calls[l - 1] if l else None
             ctx.drift.append("NTS client, association driver (%s): %s, e.g. %s" % (
